@@ -156,7 +156,9 @@ class Ctx:
 
     def svh(self, args, timeout=1500):
         try:
-            rc, out = sh([SVH] + [str(a) for a in args], cwd=VERIF, timeout=timeout, env={'SVH_THREADS': '16'})
+            env = {'SVH_THREADS': '16'}
+            env.update(getattr(self, 'svh_env', {}))
+            rc, out = sh([SVH] + [str(a) for a in args], cwd=VERIF, timeout=timeout, env=env)
         except subprocess.TimeoutExpired:
             rc, out = 124, 'timed out after %ds (the implementation hangs or is pathologically slow on some generated input)' % timeout
         if rc != 0:
